@@ -105,43 +105,54 @@ Definition sug_eqb (a b : suggestion) : bool :=
   | _, _ => false end.
 Definition dec_eqb (a b : decision) : bool :=
   match a, b with CONTINUE, CONTINUE => true | PAUSE, PAUSE => true | STOP, STOP => true | _, _ => false end.
+(* the hyperparameter part of a config is the value of "x" (a rational); cfg = what the suggestion of the
+   implementation carried: (x, value under max_resource_attr) *)
+Definition cfgQ := (Q * option Z)%type.
+Definition cfg_eqb (a b : cfgQ) : bool := Qeqb (fst a) (fst b) && opt_eqb Z.eqb (snd a) (snd b).
 Inductive sev :=
-  | SSuggest (cfg_ok : bool) (out : suggestion) (bid : nat) (s : slot_in_rung)
+  | SSuggest (cfg_ok : bool) (out : suggestion) (bid : nat) (s : slot_in_rung) (cfg : option cfgQ)
   | SResult (t : Z) (resource : Z) (v : mval) (ok : bool) (d : decision) (to_searcher : bool)
   | SPrev (bid : nat) (lv : Z) (prev : Z)
   | SErr (t : Z) (ok : bool)
   | SCollect (l : list tid).
-Fixpoint run_sev (st : shell) (evs : list sev) : bool :=
+Fixpoint run_sev (st : shell) (cfgs : list (Z * cfgQ)) (evs : list sev) : bool :=
   match evs with
   | [] => true
-  | SSuggest cfg_ok out bid s :: r =>
-      match next_job (s_mgr st), suggest st cfg_ok with
-      | Ok (_, (bid', s')), Ok (st', out') =>
-          Nat.eqb bid bid' && sir_eqb s s' && sug_eqb out out' && run_sev st' r
+  | SSuggest cfg_ok out bid s cfg :: r =>
+      (* what the searcher delivered: the hyperparameters of the suggested config (for a new trial) *)
+      let nc := if cfg_ok then match cfg with Some c => Some (fst c, None) | None => None end else None in
+      match next_job (s_mgr st), suggest_cfg Q true (st, cfgs) nc with
+      | Ok (_, (bid', s')), Ok ((st', cfgs'), res) =>
+          Nat.eqb bid bid' && sir_eqb s s' &&
+          match res, cfg with
+          | Some (out', c'), Some c => sug_eqb out out' && cfg_eqb c c'
+          | None, None => sug_eqb out SNone
+          | _, _ => false
+          end && run_sev st' cfgs' r
       | _, _ => false
       end
   | SResult t res v ok d ts :: r =>
       match on_trial_result st t res v with
-      | Ok (st', d', ts') => ok && dec_eqb d d' && Bool.eqb ts ts' && run_sev st' r
-      | Error _ => negb ok && run_sev st r
+      | Ok (st', d', ts') => ok && dec_eqb d d' && Bool.eqb ts ts' && run_sev st' cfgs r
+      | Error _ => negb ok && run_sev st cfgs r
       end
   | SPrev bid lv prev :: r =>
       match level_to_prev_level (s_mgr st) bid lv with
-      | Ok p => Z.eqb p prev && run_sev st r
+      | Ok p => Z.eqb p prev && run_sev st cfgs r
       | Error _ => false
       end
   | SErr t ok :: r =>
       match on_trial_error st t with
-      | Ok st' => ok && run_sev st' r
-      | Error _ => negb ok && run_sev st r
+      | Ok st' => ok && run_sev st' cfgs r
+      | Error _ => negb ok && run_sev st cfgs r
       end
   | SCollect l :: r =>
-      let '(st', l') := checkpoints_can_be_removed st in tids_eqb l l' && run_sev st' r
+      let '(st', l') := checkpoints_can_be_removed st in tids_eqb l l' && run_sev st' cfgs r
   end.
 Definition sched_case := (list rung_system * mode * list sev)%type.
 Definition chk_sched (c : sched_case) : bool :=
   let '(rss, md, evs) := c in
-  match shell_init rss md with Ok st => run_sev st evs | Error _ => false end.
+  match shell_init rss md with Ok st => run_sev st [] evs | Error _ => false end.
 """
 
 
@@ -1014,7 +1025,11 @@ def run_sched(ctx, replay):
                 if sg is not None and running[t]["milestone"] != s["level"]:
                     broken = ("suggest", RuntimeError("config carries level %s, job says %s" % (running[t]["milestone"], s["level"])))
                     break
-                evs.append("SSuggest %s %s %s %s" % (blit(cfg_ok), out, natlit(bid), sirlit(s)))
+                if sg is None or sg.config is None:
+                    cfglit = "None"
+                else:
+                    cfglit = "(Some (%s, %s))" % (q(float(sg.config["x"])), optlit(sg.config.get("epochs"), zlit))
+                evs.append("SSuggest %s %s %s %s %s" % (blit(cfg_ok), out, natlit(bid), sirlit(s), cfglit))
                 try:
                     prev = int(sch.bracket_manager.level_to_prev_level(bid, s["level"]))
                 except Exception as e:
